@@ -2,24 +2,49 @@
 use crate::gen::*;
 use crate::rng::Rng;
 use crate::scenario::*;
+use serde_json::json;
 
 pub fn runs(prop: &str, tier: Tier) -> u64 {
     let (q, t) = match prop {
-        "C01" | "C02" | "C05" => (400, 8000),
-        "C06" | "C07" => (500, 10000),
-        _ => (300, 5000),
+        "C01" | "C02" | "C05" => (2500, 30000),
+        "C06" | "C07" => (3000, 36000),
+        "C09" | "C10" | "C11" | "C12" => (2500, 30000),
+        "C13" => (2400, 32000),
+        _ => (1500, 20000),
     };
     match tier { Tier::Quick => q, Tier::Thorough => t }
 }
 
+fn big(r: &mut Rng, p: &mut Profile, tier: Tier) {
+    // occasionally a large pool: leaf / branch splits, merges, multi-page free lists
+    let odds = if tier == Tier::Thorough { 5 } else { 8 };
+    if r.chance(1, odds) { p.pool = (300, 1500); p.batch = (100, 700); p.steps = (2, 6); p.big_pct = 3; p.session_proves = 6; }
+    if tier == Tier::Thorough && r.chance(1, 60) { p.pool = (3000, 6000); p.batch = (1500, 4000); p.steps = (3, 7); p.big_pct = 1; }
+}
+
 pub fn make(prop: &str, tier: Tier, seed: u64) -> Scenario {
     let mut r = Rng::new(seed ^ 0xA5A5);
-    let _ = tier;
     match prop {
-        "C01" | "C02" | "C05" => {
+        "C01" => {
             let mut p = Profile::default();
-            if r.chance(1, 6) { p.pool = (200, 900); p.batch = (50, 400); p.steps = (2, 5); p.big_pct = 4; p.session_proves = 6; }
-            p.w_overlay = 6; p.w_rollback = 4;
+            big(&mut r, &mut p, tier);
+            p.w_overlay = 6; p.w_rollback = 4; p.big_pct = p.big_pct.max(8);
+            let mut c = checks_all();
+            c.witness = false; c.multiproof = false; c.proofs = false;
+            gen_history(prop, seed, p, c)
+        }
+        "C02" => {
+            let mut p = Profile::default();
+            big(&mut r, &mut p, tier);
+            p.w_overlay = 10; p.w_rollback = 4; p.big_pct = 2; p.session_reads = 0;
+            let mut c = checks_all();
+            c.witness = false; c.multiproof = false; c.proofs = false; c.values = false;
+            gen_history(prop, seed, p, c)
+        }
+        "C05" => {
+            let mut p = Profile::default();
+            big(&mut r, &mut p, tier);
+            p.w_overlay = 14; p.w_rollback = 3; p.big_pct = 3; p.session_proves = 10; p.w_reopen = 14;
             let mut c = checks_all();
             c.witness = false; c.multiproof = false;
             gen_history(prop, seed, p, c)
@@ -27,10 +52,56 @@ pub fn make(prop: &str, tier: Tier, seed: u64) -> Scenario {
         "C06" | "C07" => {
             let mut p = Profile::default();
             p.witness_pct = 100; p.w_overlay = 4; p.w_rollback = 2; p.w_reopen = 4; p.big_pct = 5;
-            if r.chance(1, 4) { p.pool = (100, 500); p.batch = (30, 300); p.steps = (2, 4); }
+            if r.chance(1, 4) { p.pool = (100, 700); p.batch = (30, 400); p.steps = (2, 4); }
             let mut c = checks_all();
             c.multiproof = prop == "C07";
             gen_history(prop, seed, p, c)
+        }
+        "C09" => {
+            let mut p = Profile::default();
+            p.rollback = Some(true); p.small_segments = true; p.w_rollback = 30; p.w_reopen = 14; p.w_overlay = 10; p.w_commit = 46;
+            p.steps = (3, 12); p.big_pct = 10; p.batch = (1, 12); p.pool = (4, 30); p.witness_pct = 0; p.bad_rollback_pct = 20;
+            let mut c = checks_all();
+            c.witness = false; c.multiproof = false; c.proofs = false;
+            let mut s = gen_history(prop, seed, p, c);
+            s.extra = json!({ "rollback_history_every": r.range(2, 5) });
+            s
+        }
+        "C10" => {
+            let mut p = Profile::default();
+            big(&mut r, &mut p, tier);
+            p.w_reopen = 40; p.w_commit = 44; p.w_rollback = 8; p.w_overlay = 8; p.small_segments = r.chance(1, 2);
+            let mut c = checks_all();
+            c.witness = false; c.multiproof = false;
+            let mut s = gen_history(prop, seed, p, c);
+            s.extra = json!({ "rollback_history_every": 3 });
+            s
+        }
+        "C11" => {
+            let mut p = Profile::default();
+            p.w_overlay = 64; p.w_commit = 22; p.w_rollback = 6; p.w_reopen = 4; p.w_compete = 4; p.steps = (3, 14); p.batch = (1, 16); p.witness_pct = 10;
+            if r.chance(1, 6) { p.pool = (100, 500); p.batch = (20, 200); }
+            let mut c = checks_all();
+            c.multiproof = false;
+            let mut s = gen_history(prop, seed, p, c);
+            s.extra = json!({ "rollback_history_every": 4 });
+            s
+        }
+        "C12" => {
+            let mut p = Profile::default();
+            p.w_compete = 50; p.w_overlay = 20; p.w_commit = 18; p.w_rollback = 8; p.w_reopen = 4; p.steps = (4, 14); p.batch = (1, 8); p.pool = (4, 24);
+            p.witness_pct = 0; p.session_proves = 1; p.session_reads = 2; p.big_pct = 6;
+            let mut c = checks_all();
+            c.witness = false; c.multiproof = false; c.proofs = false;
+            gen_history(prop, seed, p, c)
+        }
+        "C13" => {
+            // history from the high bits, configuration / schedule from the whole seed
+            let mut p = Profile::default();
+            let mut hr = Rng::new((seed >> 3) ^ 0x1313);
+            big(&mut hr, &mut p, tier);
+            p.witness_pct = 50; p.w_overlay = 8; p.w_rollback = 6; p.w_reopen = 10;
+            gen_history_cfg(prop, seed >> 3, seed ^ 0x13C0_F16, p, checks_all())
         }
         _ => gen_history(prop, seed, Profile::default(), checks_all()),
     }
